@@ -90,13 +90,19 @@ def run(ctx):
     for t in range(40 if quick else 1500):
         tree = tree_with_links(ctx)
         opts = scen.small_opts(ctx.rng)
-        destkind = ctx.rng.choice(["absent", "empty", "populated", "absent"])
+        destkind = ctx.rng.choice(["absent", "empty", "populated", "absent", "symlinks-only"])
         steps = [{"op": "init"}, {"op": "mktree", "path": "outside", "tree": OUTSIDE}, {"op": "mktree", "path": "src", "tree": tree},
                  {"op": "backup", "opts": opts}]
         if destkind == "empty":
             steps.append({"op": "mktree", "path": "dest", "tree": {"k": "d", "mode": 0o755, "mtime": 5, "c": {}}})
         if destkind == "populated":
             steps.append({"op": "mktree", "path": "dest", "tree": {"k": "d", "mode": 0o755, "mtime": 5, "c": {"mine": {"k": "f", "data": "6d", "mode": 0o600, "mtime": 77}}}})
+        if destkind == "symlinks-only":
+            # a destination holding nothing but symlinks (named like entries of the tree, aimed outside) is NOT empty
+            links = {}
+            for nm in ctx.rng.sample(sorted(tree["c"]), min(2, len(tree["c"]))) + ["zz-link"]:
+                links[nm] = {"k": "l", "target": ctx.rng.choice(["../outside/sentinel", "../outside/sdir", "../outside"]), "mtime": 10**18 + 1}
+            steps.append({"op": "mktree", "path": "dest", "tree": {"k": "d", "mode": 0o755, "mtime": 5, "c": links}})
         rs = {"op": "restore", "band": 0, "dest": "dest"}
         if ctx.rng.random() < 0.3:
             dirs = [p for p, n in gen.tree_paths(tree) if n["k"] == "d" and p != "/"]
@@ -140,7 +146,7 @@ def run(ctx):
             sig = "confine/stitched-symlink-ancestor" if c.get("stitched") else "confine/outside-modified"
             ctx.oracle_fail(sig, f"restore changed something outside its destination: {d[0]!r} ({d[1]}: {d[2]} -> {d[3]})", small)
             continue
-        if c["destkind"] == "populated":
+        if c["destkind"] in ("populated", "symlinks-only"):
             if rs.get("result") == "ok":
                 ctx.oracle_fail("confine/clobbered-nonempty-destination", "restore into a non-empty destination without overwrite was not refused", small)
                 continue
